@@ -54,7 +54,7 @@ func c16ParseScen(t string) (c16Scen, bool) {
 	a, e1 := strconv.Atoi(f[2])
 	b, e2 := strconv.Atoi(f[3])
 	c, e3 := strconv.Atoi(f[4])
-	if e1 != nil || e2 != nil || e3 != nil || a < 1 || a > 16 || b < 0 || c < 1 || c > 4 {
+	if e1 != nil || e2 != nil || e3 != nil || a < 1 || a > 16 || b < 0 || c < 1 || c > 64 {
 		return c16Scen{}, false
 	}
 	return c16Scen{f[0], f[1], a, b, c}, true
@@ -213,7 +213,11 @@ func c16RunScenario(k *c16Child, sc c16Scen, r *Rng) {
 	for i := 0; i < sc.Clients; i++ {
 		if i > 0 {
 			// every client of this process would carry the same device id: give the next one its own
-			local.UUID[len(local.UUID)-1] ^= byte(i)
+			if sc.Clients > 2 {
+				local.UUID[len(local.UUID)-2], local.UUID[len(local.UUID)-3] = byte(i), byte(i>>8)|0x40
+			} else {
+				local.UUID[len(local.UUID)-1] ^= byte(i)
+			}
 			local.Device.ID = local.UUID
 		}
 		s, err := c2.ConnectContext(cctx, nil, cp)
@@ -346,6 +350,12 @@ func c16RunScenario(k *c16Child, sc c16Scen, r *Rng) {
 	case "listener":
 		add("Listener.Close", func() { l.Close() })
 		expectSessionsClosed = false
+	case "fleet":
+		var slow sync.Once
+		srv.Shutdown = func(*c2.Session) { slow.Do(func() { time.Sleep(1500 * time.Millisecond) }) }
+		// every client closes at once while the Server thread is busy in an operator callback for a
+		// moment: more removal requests than the Server's queue holds must still all be honoured
+		add("client.Close", closeClients)
 	case "srvclose":
 		add("Server.Close", func() { srv.Close() })
 		expectSessionsClosed = false
